@@ -43,6 +43,10 @@ func main() {
 		runChainProfile(profileSpec{"burn", genBurnHistory, func() []Monitor { return []Monitor{&burnMonitor{}, &feeMonitor{}} }}, *seed, *n, *out, *replay, *blocks)
 	case "pnft":
 		runChainProfile(profileSpec{"pnft", genPnftHistory, func() []Monitor { return []Monitor{newPnftMonitor(), &feeMonitor{}} }}, *seed, *n, *out, *replay, *blocks)
+	case "total":
+		runChainProfile(profileSpec{"total", genTotalHistory, func() []Monitor { return []Monitor{&feeMonitor{}} }}, *seed, *n, *out, *replay, *blocks)
+	case "keystore":
+		runKeystore(*seed, *n, *out)
 	case "valid":
 		runValid(*seed, *n, *out, *replay)
 	case "did":
